@@ -27,7 +27,8 @@ RULE = ("generated template sets (single / include / extends+super / import) of 
         "exactly one marker on a known line: a raising call (`{{ boom() }}`, `{% if boom() %}`, `{% for .. in boom() %}`, "
         "`{% set z = boom() %}`) or a malformed token (unknown tag, junk after expression, bad character, unclosed "
         "string, empty condition, offending token on the second line of a multi-line tag); line break style in "
-        "{LF, CRLF, CR}, trim_blocks x lstrip_blocks x keep_trailing_newline random, `-` modifiers on random tags; "
+        "{LF, CRLF, CR}, trim_blocks x lstrip_blocks x keep_trailing_newline x enable_async random, autoescape regions and "
+        "filtered loops (try/finally in the generated code) with code after the marker, `-` modifiers on random tags; "
         "distinct = (sources, options); non-trivial = the marker is nested at depth >= 1 or below a multi-line "
         "construct. K-gen: every template of every set that compiles, events recorded from the real generator; "
         "non-trivial = at least 3 debug pairs.")
@@ -109,7 +110,7 @@ class Gen:
                 return self.filler(in_macro)
             self.depth_of_marker = self.max_depth - depth
             return [("MARK", m) for m in marker]      # resolved by the caller
-        kinds = ["if", "for", "macro", "call", "with", "filter", "setblock", "ifelse"]
+        kinds = ["if", "for", "macro", "call", "with", "filter", "setblock", "ifelse", "autoescape", "forif"]
         if allow_block and not in_macro:
             kinds.append("block")
         kind = r.choice(kinds)
@@ -123,6 +124,12 @@ class Gen:
         if kind == "for":
             return (["{% for i@ in range(1) %}".replace("@", str(k))] + inner(in_macro=in_macro, allow_block=False)
                     + ["{% else %}", "empty", "{% endfor %}"])
+        if kind == "autoescape":      # a region the compiler protects with try/finally, with code after the body
+            return (["{% autoescape " + r.choice(["true", "false"]) + " %}"] + inner(in_macro=in_macro, allow_block=False)
+                    + ["{{ 1 + range(2)|length }}", "{{ 'tail'|upper }}", "{% endautoescape %}"])
+        if kind == "forif":           # a filtered loop (async environments close the filter generator in a finally)
+            return (["{% for f@ in range(3) if f@ == 1 %}".replace("@", str(k))] + inner(in_macro=in_macro, allow_block=False)
+                    + ["{{ f@ + 1 }}".replace("@", str(k)), "{{ range(2)|length }}", "{% endfor %}"])
         if kind == "macro":
             return (["{% macro m@(a=1) %}".replace("@", str(k))] + inner(in_macro=True, allow_block=False)
                     + ["{% endmacro %}", "before {{ m@() }} after".replace("@", str(k))])
@@ -268,7 +275,8 @@ class Gen:
             T["main"] = ["{% extends 'parent' %}", "{% block content %}", "child before", "{{ super() }}", "child after", "{% endblock %}"]
             where = "parent"
         nl = r.choice(["\n", "\n", "\r\n", "\r"])
-        opts = {"trim_blocks": r.random() < 0.4, "lstrip_blocks": r.random() < 0.4, "keep_trailing_newline": r.random() < 0.3}
+        opts = {"trim_blocks": r.random() < 0.4, "lstrip_blocks": r.random() < 0.4, "keep_trailing_newline": r.random() < 0.3,
+                "enable_async": r.random() < 0.2}
         srcs = {}
         for name, lines in T.items():
             if r.random() < 0.5:
